@@ -216,6 +216,74 @@ pub fn run_mesh(c: &MeshCase) -> CaseResult {
     }
 }
 
+/// Silence in a learning (switch/tap) mesh without claims: the routes of the silent node are the addresses LEARNED from its
+/// traffic (fresh for `switch_timeout`, which is longer than the peer timeout here). They must go with the peer.
+pub fn run_silence_learned(c: &SilenceCase) -> CaseResult {
+    use crate::payload::Frame;
+    let cfgs: Vec<_> = (0..3)
+        .map(|_| {
+            let mut cfg = base_config(Mode::Switch, Type::Tap, 0, &[0]);
+            cfg.peer_timeout = c.timeout;
+            cfg.switch_timeout = c.timeout * 4 + 1000;
+            cfg
+        })
+        .collect();
+    let mut net = Net::<Frame>::mesh(&cfgs, 2);
+    if !net.fully_meshed() {
+        return Err(Fail::new("no_mesh", "mesh did not form"));
+    }
+    let station = [2u8, 0, 0, 0, 0x77, 1];
+    for _ in 0..c.from_second {
+        net.run(1);
+    }
+    // a station behind node 2 speaks (broadcast): nodes 0 and 1 learn it; then node 2 falls silent
+    net.put_frame(2, eth_frame([0xff; 6], station, None, b"station behind the node that will fall silent")).map_err(|e| Fail::new("send_error", format!("{}", e)))?;
+    net.deliver_all(64);
+    for i in 0..3 {
+        net.pop_frames(i);
+    }
+    let victim = net.addrs[2];
+    if !net.nodes[0].verif_table().verif_cache().iter().any(|e| e.1 == victim) {
+        return Err(Fail::new("not_learned", "node 0 did not learn the station address from node 2's frame"));
+    }
+    net.silenced[2] = true;
+    let view = net.nodes[0].verif_peers().into_iter().find(|p| p.addr == victim).ok_or_else(|| Fail::new("no_mesh", "victim is no peer when the silence starts"))?;
+    let expiry_0 = view.timeout;
+    let mut removed = false;
+    for _ in 0..(c.timeout as i64 + 5) {
+        net.tick();
+        net.deliver_all(512);
+        let connected = net.nodes[0].verif_is_connected(&victim);
+        if connected && net.now > expiry_0 {
+            return Err(Fail::new("silent_peer_kept", format!("still a peer at +{} although its timeout expired at +{}", net.now - START_TIME, expiry_0 - START_TIME)).with("mode", "switch"));
+        }
+        if !connected {
+            removed = true;
+            // with its routes, at this very tick
+            if let Some(e) = net.nodes[0].verif_table().verif_cache().iter().find(|e| e.1 == victim) {
+                return Err(Fail::new("routes_kept", format!("node 0 still maps the learned address {} to the peer it just removed ({} s of freshness left)", e.0, e.2 - net.now)).with("mode", "switch"));
+            }
+            // and a frame for the station goes to the remaining peer (unknown destination), not into the void
+            for i in 0..3 {
+                net.pop_frames(i);
+            }
+            net.queue.retain(|w| w.data.first() == Some(&0xff)); // keep node 0's re-dial out of the count
+            let before = net.queue.len();
+            let f = eth_frame(station, [2, 0, 0, 0, 0x10, 1], None, b"frame for the station of the removed peer");
+            let r = net.put_frame(0, f.clone());
+            let sent: Vec<_> = net.queue.iter().skip(before).map(|w| w.to).collect();
+            if r.is_err() || sent != vec![net.addrs[1]] {
+                return Err(Fail::new("routes_kept", format!("frame for a station of the removed peer: result {:?}, datagrams to {:?} (expected one, to the remaining peer)", r.map_err(|e| e.to_string()), sent)).with("mode", "switch"));
+            }
+            break;
+        }
+    }
+    if !removed {
+        return Err(Fail::new("silent_peer_kept", "silent peer never removed").with("mode", "switch"));
+    }
+    Ok(1)
+}
+
 #[derive(Serialize, Deserialize, Clone, Debug)]
 pub struct SilenceCase {
     pub from_second: i64,
@@ -417,6 +485,13 @@ pub fn run(ctx: &Ctx) {
         }
     }
     sweep_list(ctx, "silence", &sil, SweepOpts { chunk: 1, ..Default::default() }, run_silence);
+    let mut sl = vec![];
+    for t in (0..=200).step_by(ctx.tier.pick(10, 1)) {
+        for timeout in [120u32, 300] {
+            sl.push(SilenceCase { from_second: t, timeout, victim_timeout: None });
+        }
+    }
+    sweep_list(ctx, "silence_learned_routes", &sl, SweepOpts { chunk: 1, ..Default::default() }, run_silence_learned);
     sweep_list(ctx, "backoff_48h", &[BackoffCase { hours: 48 }, BackoffCase { hours: 13 }], SweepOpts { chunk: 1, ..Default::default() }, run_backoff);
     ctx.assume("the harness build has overflow checks on: what wraps silently in the release profile is a caught panic here (a louder signal for the same failing input)");
     ctx.assume("keepalive and close messages are never emitted by a running node; the advertised timeout is delivered by a scripted peer through a real handshake");
@@ -428,6 +503,7 @@ pub fn replay(family: &str, case: &Value) -> Option<CaseResult> {
         "heterogeneous_meshes" => replay_with::<MeshCase>(case, run_mesh),
         "membership_churn" => replay_with::<ChurnCase>(case, run_churn),
         "silence" => replay_with::<SilenceCase>(case, run_silence),
+        "silence_learned_routes" => replay_with::<SilenceCase>(case, run_silence_learned),
         "backoff_48h" => replay_with::<BackoffCase>(case, run_backoff),
         _ => None,
     }
